@@ -606,11 +606,65 @@ CHECKS["C11"] = {
         "1-4 files of mixed languages, 0-4 nested/sibling blocks each with 0-3 rules (violating or not) and every severity spelling; in-process run + the real binary (validate and list) on a prefix; non-trivial = at least one diagnostic or error",
         ("validate", "list")),
 }
+def c14_subsets(rep, tier, seed, rows):
+    """the property's own quantifier: every subset of the seven validators, given to --disable and to --enable, over the
+    rule-richest generated file sets; plus the run-level law proved in Lean, checked on the implementation alone:
+    the report under a flag is the unrestricted report filtered by diagnostic code"""
+    import itertools
+    names = ["affects", "keep-sorted", "keep-unique", "line-pattern", "line-count", "check-ai", "check-lua"]
+    rich = sorted([r for r in rows if "err" not in r[2].get("ctx", {})], key=lambda r: -len(r[2].get("detected", [])))[:n_for(tier, 4, 24)]
+    rep.rules.append("exhaustive: every subset of the seven validators x {--disable, --enable, neither} on the generated file sets with the most rule kinds; besides model = implementation, the implementation's report under the flag must equal its own unrestricted report filtered by diagnostic code")
+    raws = []
+    for case, impl, model in rich:
+        base = {k: v for k, v in case.items() if k not in ("regex", "regex_texts", "ops", "enabled", "disabled")}
+        base["patterns"] = [e["p"] for e in case.get("regex", [])]
+        for k in range(len(names) + 1):
+            for sub in itertools.combinations(names, k):
+                for flag in (("disabled",), ("enabled",)) if sub else (("none",),):
+                    c = dict(base); c["enabled"] = list(sub) if flag[0] == "enabled" else []; c["disabled"] = list(sub) if flag[0] == "disabled" else []
+                    c["meta"] = {"gen": "flag-subsets", "flag": flag[0], "subset": list(sub), "base": case["meta"].get("i")}
+                    raws.append(c)
+    d = os.path.join(K.WORK, rep.prop, "subsets")
+    __import__("shutil").rmtree(d, ignore_errors=True); os.makedirs(d)
+    with open(os.path.join(d, "raw.jsonl"), "w") as f:
+        for r in raws:
+            f.write(json.dumps(r) + "\n")
+    K.sh([K.BWH, "replay", "--out", d, os.path.join(d, "raw.jsonl")])
+    K.run_model(os.path.join(d, "cases.jsonl"), os.path.join(d, "model.jsonl"))
+    srows = [(json.loads(a), json.loads(b), json.loads(c)) for a, b, c in zip(open(os.path.join(d, "cases.jsonl")), open(os.path.join(d, "impl.jsonl")), open(os.path.join(d, "model.jsonl")))]
+    K.correspondence(rep, srows, "flag subsets", lambda c, i, m: len(i.get("run", {}).get("diags", [])) >= 1, known=K.load_known(rep.prop))
+    # the filter law on the implementation alone (disable_removes_exactly_diags / enable_keeps_exactly_diags)
+    base_diags = {}
+    for case, impl, model in srows:
+        if case["meta"]["flag"] == "none" and "diags" in impl.get("run", {}):
+            base_diags[case["meta"]["base"]] = impl["run"]["diags"]
+    bad = 0
+    for case, impl, model in srows:
+        m = case["meta"]
+        if m["flag"] == "none" or m["base"] not in base_diags or "diags" not in impl.get("run", {}):
+            continue
+        keep = (lambda d: d["code"] not in m["subset"]) if m["flag"] == "disabled" else (lambda d: d["code"] in m["subset"])
+        want = sorted(K.canon(d) for d in base_diags[m["base"]] if keep(d))
+        got = sorted(K.canon(d) for d in impl["run"]["diags"])
+        rep.evaluations += 1
+        rep.count("flag subsets:filter-law-checked")
+        if want != got:
+            bad += 1
+            if bad <= 2:
+                rep.violation({"property": rep.prop, "component": "flag subsets (filter law)", "what": "the report under the flag is not the unrestricted report filtered by diagnostic code",
+                               "case": case, "impl": impl, "expected_diags": want})
+
+
+def c14_extra(rep, tier, seed, rows):
+    c14_flag_errors(rep, tier, seed, rows)
+    c14_subsets(rep, tier, seed, rows)
+
+
 CHECKS["C14"] = {
     "module": "Bw.Props.C14", "needs_binary": True, "trusted_base": TB_COMMON + ["clap argument parsing (exercised through the binary)"],
     "run": multi_check(True, 4000, 60000, 250, 2500,
         "as C11 plus a random subset of the seven validators (with repeats) given to --enable or to --disable; the model filters the detector table regenerated from the source; invalid combinations (both flags, unknown names) must be rejected before any file is parsed",
-        ("validate",), extra=c14_flag_errors),
+        ("validate",), extra=c14_extra),
 }
 
 
